@@ -32,9 +32,10 @@ def _reads(e):
 class PE:
     """partial evaluator over one unit"""
 
-    def __init__(self, unit):
+    def __init__(self, unit, call_default=None):
         self.u = unit
         self.memo = {}
+        self.call_default = call_default or {}     # callee name -> value assumed for its result (e.g. status 0)
 
     # ---- expression evaluation with a key->value binding
     def _hook(self, bind, callvals):
@@ -47,6 +48,19 @@ class PE:
                     raise r_mpt.Unknown()
                 return v
             k = n.get("k")
+            if k == "lazy" and n.get("lz") is not None:
+                return rec(n["lz"])
+            if k == "cond":
+                return rec(n["x"]) if rec(n["c"]) else rec(n["y"])
+            if k == "call":
+                kk = key(n)
+                if kk in bind:
+                    if bind[kk] == UNSURE:
+                        raise r_mpt.Unknown()
+                    return bind[kk]
+                if n.get("fn") in self.call_default:
+                    return self.call_default[n["fn"]]
+                return None
             if k in ("ref", "mem", "sub") or (k == "un" and n.get("op") == "*"):
                 kk = key(n)
                 if kk in bind:
@@ -86,16 +100,24 @@ class PE:
         return hook
 
     def depends(self, e, bind):
-        for x, _ in walk(e):
-            if x.get("k") in ("ref", "mem", "sub", "un") and key(x) in bind:
-                return True
-        return False
+        """is the value of e (partly) determined by the binding?  A value read from memory through a bound pointer is
+        not: only the bound lvalues themselves, and calls that receive them, count."""
+        k = e.get("k")
+        if k in ("ref", "mem", "sub", "un", "call") and key(e) in bind:
+            return True
+        if k == "call" and e.get("fn") in self.call_default:
+            return True
+        if (k == "mem" and e.get("arrow")) or k == "sub" or (k == "un" and e.get("op") == "*"):
+            return False
+        return any(self.depends(c, bind) for c in core.children(e))
 
     def _calls(self, e, bind):
         """known calls in e whose arguments carry bound knowledge"""
         res = []
         for x, _ in walk(e):
             if x.get("k") == "call" and x.get("fn") in self.u.functions and self.u.functions[x["fn"]].has_cfg:
+                if key(x) in bind or x.get("fn") in self.call_default:
+                    continue
                 cb = self._callee_bind(x, bind)
                 if cb:
                     res.append((x, cb))
@@ -147,6 +169,8 @@ class PE:
         res = []
         dep = rhs is not None and (self.depends(rhs, bind) or bool(self._calls(rhs, bind)))
         opts = self.evals(rhs, bind, depth) if dep else [(None, True)]
+        if not dep and rhs is not None and const_val(rhs) is not None:
+            dep, opts = True, [(const_val(rhs), True)]      # plain constants propagate
         for v, sure in opts:
             nb = dict(bind)
             if base:
@@ -246,6 +270,51 @@ class PE:
                 res.append((succ[0] if v else succ[1], bind, sure and s2))
         return res
 
+    def trace(self, fn, bind, max_steps=4000):
+        """deterministic walk from the entry under a binding that decides every branch.
+        returns (events, ret) : events = [(stmt, bind before it)], ret = value of the return expression
+        (None when not a constant); or (events, "undecided:<why>") when some branch is not decided."""
+        bid = fn.entry
+        events = []
+        b = dict(bind)
+        for _ in range(max_steps):
+            blk = fn.blocks[bid]
+            for e in blk.elems:
+                events.append((e, b))
+                if e.get("k") == "ret":
+                    if e.get("e") is None:
+                        return events, None
+                    vs = self.evals(e["e"], b, 0)
+                    if len(vs) != 1:
+                        return events, "undecided:return value at line %s" % e.get("ln")
+                    return events, vs[0][0]
+                if e is blk.cond:
+                    continue
+                res = self._step_elem(fn, e, b, 0)
+                if len(res) != 1 or not res[0][1]:
+                    return events, "undecided:statement at line %s" % e.get("ln")
+                b = res[0][0]
+            nx = self.branch(fn, bid, b, True, 0)
+            tg = {x[0] for x in nx}
+            if len(tg) != 1 or not all(x[2] for x in nx):
+                return events, "undecided:branch at line %s" % ((blk.cond or {}).get("ln"))
+            bid = nx[0][0]
+            if bid == fn.exit:
+                return events, None
+        return events, "undecided:too many steps"
+
+    def _step_elem(self, fn, e, b, depth):
+        blk = type("B", (), {"elems": [e], "cond": None})()
+        saved = fn.blocks.get(-999)
+        fn.blocks[-999] = blk
+        try:
+            return [(x[0], x[1]) for x in self.step_block(fn, -999, b, True, depth)]
+        finally:
+            if saved is None:
+                del fn.blocks[-999]
+            else:
+                fn.blocks[-999] = saved
+
     # ---- callee summaries
     def outcomes(self, fn, bind, depth):
         """set of (constant return value or None, sure) reachable in fn knowing `bind`"""
@@ -301,6 +370,7 @@ class PE:
             for nb, s2, stopped in self.step_block(fn, bid, b, s, 0, stop=stmt if bid == stmt_block else None):
                 if stopped:
                     if s2:
+                        self.last_bind = nb
                         return "sure", path
                     best, wit = "unsure", path
                     continue
